@@ -122,6 +122,30 @@ Theorem C35_scroll_refuted_unfixed :
 Proof. exact (conj d11_start_agrees (conj scroll_unfixed_refuted scroll_fixed_same_witness)). Qed.
 Print Assumptions C35_scroll_refuted_unfixed.
 
+(* _refresh_dbcs (the DBCS re-conversion of a text row inside force_submit): for every old and new unicode row of
+   equal length and every dirty range given, the range it returns (model refresh_range = the Python computation via
+   updated.index(True) / reversed index, then min/max with the given range) contains the given range and EVERY
+   cell that changed - so the update signal sent for that range carries all changed cells; and replacing the
+   whole row, as the code does, is the model's refresh_row on that range (the assumption of the text theorems) *)
+Theorem C35_refresh_range_covers : forall o n os oe s e d, length o = length n ->
+  refresh_range o n os oe = (s, e) ->
+  s <= os /\ oe <= e /\
+  forall k, (k < length n)%nat -> ~ (s <= Z.of_nat k + 1 <= e) -> nth k n d = nth k o d.
+Proof. exact refresh_range_covers. Qed.
+Print Assumptions C35_refresh_range_covers.
+
+Theorem C35_refresh_row_is_whole_row : forall pg r o n os oe s e, length o = length n ->
+  refresh_range o n os oe = (s, e) ->
+  (forall col, 1 <= col <= zlen n -> txt pg r col = row_fn o col) ->
+  forall col, 1 <= col <= zlen n ->
+  txt (refresh_row pg r s e (fun _ c => row_fn n c)) r col = row_fn n col.
+Proof. exact refresh_row_is_whole_row. Qed.
+Print Assumptions C35_refresh_row_is_whole_row.
+
+Example C35_refresh_nonvacuous :
+  refresh_range [65; 65; 65; 65] [65; 7; 0; 65] 2 2 = (2, 3) /\ refresh_range [1; 2] [1; 2] 2 0 = (2, 0).
+Proof. vm_compute. split; reflexivity. Qed.
+
 (* non-vacuity: a well-formed two-page 4x6-pixel display (2x3 cells of a 2x2 font), a history that uses every
    operation kind, is inside the envelope, and ends with a non-trivial picture that the consumer reproduces *)
 Definition ex_cfg : cfg := mkCfg 4 6 2 3 2 2.
